@@ -9,11 +9,18 @@ LOG=$M/eval.txt
 ER=/tmp/mut/evalrepo; EV=/tmp/mut/evalverif
 echo "== $(date) $M" > $LOG
 cd $WT && git checkout -q -- . && rm -f tests/demo.rs
-cp $M/demo.rs tests/demo.rs
-if cargo test --offline --test demo >/dev/null 2>&1; then echo "demo_unchanged: pass" >> $LOG; else echo "demo_unchanged: FAIL" >> $LOG; fi
+# how the demonstration is run: demo.sh if delivered, else tests/demo.rs (DEMO_FLAGS, e.g. "--features serde"; DEMO_DEVDEP adds a dev-dependency)
+rundemo() {
+  if [ -f $M/demo.sh ]; then bash $M/demo.sh >/dev/null 2>&1; return $?; fi
+  cp $M/demo.rs tests/demo.rs
+  if [ -n "${DEMO_DEVDEP:-}" ] && ! grep -q "dev-dependencies" Cargo.toml; then printf '\n[dev-dependencies]\n%s\n' "$DEMO_DEVDEP" >> Cargo.toml; fi
+  cargo test --offline ${DEMO_FLAGS:-} --test demo >/dev/null 2>&1
+}
+if rundemo; then echo "demo_unchanged: pass" >> $LOG; else echo "demo_unchanged: FAIL" >> $LOG; fi
+git checkout -q -- . 2>/dev/null
 if git apply $M/patch.diff; then
-  if cargo test --offline --test demo >/dev/null 2>&1; then echo "demo_changed: PASS (not a mutant)" >> $LOG; else echo "demo_changed: fail" >> $LOG; fi
-  rm -f tests/demo.rs
+  if rundemo; then echo "demo_changed: PASS (not a mutant)" >> $LOG; else echo "demo_changed: fail" >> $LOG; fi
+  rm -f tests/demo.rs; git checkout -q -- Cargo.toml 2>/dev/null; git apply $M/patch.diff 2>/dev/null
   R=$(cargo test --workspace --no-fail-fast --offline 2>&1 | grep -E '^test result' | awk '{p+=$4; f+=$6} END {print "passed",p,"failed",f}')
   echo "suite_changed: $R" >> $LOG
 else
@@ -24,7 +31,7 @@ git checkout -q -- . ; rm -f tests/demo.rs
 [ -d $ER ] || git -C /repo worktree add -q --detach $ER HEAD
 git -C $ER checkout -q --detach $(git -C /repo rev-parse HEAD) 2>/dev/null; git -C $ER checkout -q -- .
 mkdir -p $EV && rsync -a --delete --exclude work --exclude .git --exclude replays --exclude evidence /verif/ $EV/
-sed -i "s#path = \"/repo\"#path = \"$ER\"#" $EV/harness/Cargo.toml
+sed -i "s#path = \"/repo\"#path = \"$ER\"#" $EV/harness/Cargo.toml $EV/probe/Cargo.toml
 cp -n /repo/Cargo.lock $ER/Cargo.lock 2>/dev/null
 if git -C $ER apply $M/patch.diff; then
   for c in "$@"; do
